@@ -13,9 +13,10 @@ _SHAPE_CACHE = {}
 
 
 def _shape(vec, fmt):
-    key = (vec["nfields"], core.json.dumps(vec["checks"], sort_keys=True), vec["header"], fmt)
+    key = (vec["nfields"], core.json.dumps(vec["checks"], sort_keys=True), vec["header"], fmt, bool(vec.get("logcalls")))
     if key not in _SHAPE_CACHE:
-        _SHAPE_CACHE[key] = sessionlib.Shape(vec["nfields"], vec["checks"], vec["header"], fmt)
+        _SHAPE_CACHE[key] = sessionlib.Shape(vec["nfields"], vec["checks"], vec["header"], fmt,
+                                             recording=bool(vec.get("logcalls")))
     return _SHAPE_CACHE[key]
 
 
